@@ -4,7 +4,6 @@ import (
 	"context"
 	"errors"
 	"github.com/streamingfast/bstream"
-	"github.com/streamingfast/opaque"
 
 	"github.com/streamingfast/substreams/orchestrator/plan"
 	pbssinternal "github.com/streamingfast/substreams/pb/sf/substreams/intern/v2"
@@ -68,7 +67,7 @@ func c17Request() *pbsubstreamsrpc.Request {
 		// the numeric dimensions are explored by FOCUS=0 (and by C12)
 		req.StartBlockNum = 5
 		if focus == 3 {
-			req.StopBlockNum = uint64(sym.Choice("stop", 3)) * 4 // 0, 4 (below the cursor block), 8
+			req.StopBlockNum = uint64(sym.Choice("stop", 2)) * 8 // 0, 8 (below the cursor block 10)
 		}
 	}
 	req.ProductionMode = sym.Choice("production", 2) == 1
@@ -99,7 +98,7 @@ func c17Request() *pbsubstreamsrpc.Request {
 		} else {
 			m.Name = c17Names[i]
 			// well-formed kinds: first module store or index or map by choice, others map
-			if i == 0 {
+			if i == 0 && focus != 3 {
 				c17Kind(m, 1+sym.Choice("kind", 3))
 			} else {
 				c17Kind(m, 1)
@@ -190,12 +189,21 @@ func VerifC17Request() {
 	// text the cursor decoder distinguishes, and a well-formed cursor whose fork resolver
 	// answers anything
 	if sym.Param("FOCUS", 0) == 3 {
-		texts := []string{"c1:1:5:aa:4:bb", "c1:x:5:aa:4:bb", "c1:1:y:aa:4:bb", "c1:1:5:aa:z:bb", "c1:1:5:aa", "c2:1:5:aa:7:cc", "c3:1:5:aa:4:bb:7:cc", "c3:1:5:aa:4:bb:w:cc", "c9:1", "", ":", "c1:99:5:aa:4:bb", "c1:1:18446744073709551615:aa:4:bb", "c1:1:18446744073709551616:aa:4:bb", "c1:4:5:aa:9:bb"}
-		switch k := sym.Choice("cursor", len(texts)+2); {
-		case k == len(texts):
+		// built through the real Cursor.ToOpaque: ids containing the field separator make the
+		// decoder see too many fields, an empty id an empty field; steps outside the known set
+		ids := []string{"aa", "", "a:b"}
+		steps := []bstream.StepType{bstream.StepNew, bstream.StepUndo, bstream.StepNewIrreversible, bstream.StepType(0)}
+		switch k := sym.Choice("cursor", 3); k {
+		case 1:
 			req.StartCursor = "not an opaque cursor"
-		case k < len(texts):
-			req.StartCursor = opaque.EncodeString(texts[k])
+		case 2:
+			blk := bstream.NewBlockRef(ids[sym.Choice("block-id", len(ids))], 5+uint64(sym.Choice("block-num", 2))*5) // 5, 10
+			lib := bstream.NewBlockRef(ids[sym.Choice("lib-id", 2)], uint64(sym.Choice("lib-num", 3))*5)              // 0, 5, 10
+			var head bstream.BlockRef = blk
+			if sym.Param("HEADS", 1) == 2 && sym.Choice("head", 2) == 1 {
+				head = bstream.NewBlockRef("hh", 12)
+			}
+			req.StartCursor = (&bstream.Cursor{Step: steps[sym.Choice("step", len(steps))], Block: blk, LIB: lib, HeadBlock: head}).ToOpaque()
 		}
 	}
 	resolve := func(ctx context.Context, c *bstream.Cursor) (bstream.BlockRef, bstream.BlockRef, error) {
